@@ -11,9 +11,13 @@ import (
 	"fmt"
 	"net"
 	"os"
+	"reflect"
 	"strings"
 	"testing"
 	"time"
+	"unsafe"
+
+	"github.com/davecgh/go-spew/spew"
 )
 
 type replayFile struct {
@@ -229,4 +233,102 @@ func NondetPeer(name string, v6 bool) (string, []byte) {
 		return "[" + net.IP(octets).String() + "]:4711", octets
 	}
 	return net.IP(octets).String() + ":4711", octets
+}
+
+// Havoc fills *ptr with an arbitrary value of its type: scalars nondeterministic, pointers nil or
+// fresh, slices of 0..2 elements, maps of 0..1 entries, interfaces nil (natively) or opaque (engine).
+func Havoc(name string, ptr any) {
+	NondetChoice("havoc-shape-family:"+name, 8) // the engine's shape family; the individual shape decisions are recorded by name
+	havoc(name, reflect.ValueOf(ptr).Elem(), 0)
+}
+
+func settable(v reflect.Value) reflect.Value {
+	if v.CanSet() {
+		return v
+	}
+	return reflect.NewAt(v.Type(), unsafe.Pointer(v.UnsafeAddr())).Elem()
+}
+
+func havoc(name string, v reflect.Value, depth int) {
+	if depth > 4 {
+		return
+	}
+	v = settable(v)
+	switch v.Kind() {
+	case reflect.Bool:
+		v.SetBool(val(name) != 0)
+	case reflect.Int, reflect.Int8, reflect.Int16, reflect.Int32, reflect.Int64:
+		v.SetInt(int64(val(name)))
+	case reflect.Uint, reflect.Uint8, reflect.Uint16, reflect.Uint32, reflect.Uint64, reflect.Uintptr:
+		v.SetUint(val(name))
+	case reflect.String:
+		n := NondetChoice("len:"+name, 2)
+		v.SetString(string(NondetBytes(name, n)))
+	case reflect.Pointer:
+		if NondetChoice("nil:"+name, 2) == 0 {
+			return
+		}
+		p := reflect.New(v.Type().Elem())
+		havoc(name+".*", p.Elem(), depth+1)
+		v.Set(p)
+	case reflect.Struct:
+		for i := 0; i < v.NumField(); i++ {
+			havoc(name+"."+v.Type().Field(i).Name, v.Field(i), depth+1)
+		}
+	case reflect.Slice:
+		n := NondetChoice("len:"+name, 3)
+		if n == 0 {
+			return
+		}
+		s := reflect.MakeSlice(v.Type(), n, n)
+		for i := 0; i < n; i++ {
+			havoc(fmt.Sprintf("%s[%d]", name, i), s.Index(i), depth+1)
+		}
+		v.Set(s)
+	case reflect.Array:
+		for i := 0; i < v.Len(); i++ {
+			havoc(fmt.Sprintf("%s[%d]", name, i), v.Index(i), depth+1)
+		}
+	case reflect.Map:
+		switch NondetChoice("len:"+name, 3) {
+		case 0:
+			return
+		case 1:
+			v.Set(reflect.MakeMap(v.Type()))
+			return
+		}
+		mp := reflect.MakeMap(v.Type())
+		k := reflect.New(v.Type().Key()).Elem()
+		if k.Kind() == reflect.String {
+			k.SetString("k")
+		}
+		e := reflect.New(v.Type().Elem()).Elem()
+		havoc(name+"[k]", e, depth+1)
+		mp.SetMapIndex(k, e)
+		v.Set(mp)
+	case reflect.Interface:
+		NondetChoice("nil:"+name, 2) // consumed for alignment with the engine; interfaces stay nil natively
+	}
+}
+
+var snapshots []struct {
+	obj  any
+	dump string
+}
+
+var dumper = spew.ConfigState{DisablePointerAddresses: true, DisableCapacities: true, SortKeys: true, DisableMethods: true, Indent: " "}
+
+// Snapshot remembers the state of everything reachable from x; Changed reports whether any of it was
+// written since (engine: write monitor on the reachable cells; natively: deep dump comparison).
+func Snapshot(x any) int {
+	snapshots = append(snapshots, struct {
+		obj  any
+		dump string
+	}{x, dumper.Sdump(x)})
+	return len(snapshots)
+}
+
+func Changed(id int) bool {
+	s := snapshots[id-1]
+	return dumper.Sdump(s.obj) != s.dump
 }
